@@ -1,4 +1,4 @@
-HOOK_COMMITS = []
+HOOK_COMMITS = ["cbe49e7"]
 PENDING = {}
 META = {
  "C12": {
@@ -6,5 +6,36 @@ META = {
   "design_ref": "DESIGN.md section 4, C12",
   "note": "Trusts rapid's generators and the harness event log; stability is deliberately not asserted.",
   "technique": "property-based testing (rapid): validity predicate over sorter output and observed invocation sequences",
+ },
+
+ "C01": {
+  "text": "Generated node-family scenarios (every digraph on up to 6 nodes through qualified slices, plus ring, group and by-name edges, lazy/primary variants, optional consistent early-wrapping post-processor, 200-node scale family) are started on the real container with drawn registration and registry-enumeration orders (verif hook); afterwards every tagged field of every registered component, GetComponentByName and GetComponents are compared by pointer identity. Exploration: shapes and orders are sampled, not exhausted.",
+  "design_ref": "DESIGN.md section 4, C01",
+  "note": "Trusts the harness wrappers/permuter around the real registries (build tag verif) and Go reflection for reading fields; Go map order inside the container is sampled only.",
+  "technique": "property-based testing (rapid): generated dependency graphs, identity invariant over all holders and lookups",
+ },
+ "C02": {
+  "text": "Random rich digraphs (required variants placed by the model, self-only family, scale family to 200 nodes) and the complete set of digraphs on 2 and 3 pure nodes x all creation orders x all required/optional assignments (thorough: 4 nodes) are started; a reference model written from the property decides must-succeed / must-fail, wiring is checked against admissible targets, and termination is decided by a deterministic creation budget. Exhaustive inside the stated small scope, sampled beyond it.",
+  "design_ref": "DESIGN.md section 4, C02",
+  "note": "Termination = terminates within the step budget; the model is the trusted base (reviewed against property text and README).",
+  "technique": "property-based testing + exhaustive small-scope enumeration against a reference resolution model",
+ },
+ "C06": {
+  "text": "Generated provider populations x run-time built consumer structs (reflect.StructOf) with unnamed wire/func points of every field kind; the oracle is a plain-reflect candidate set over the registered population: slices must hold exactly that set minus the holder, single points one member, start-up fails iff a required point has none.",
+  "design_ref": "DESIGN.md section 4, C06",
+  "note": "Trusts reflect.StructOf consumers being treated like declared structs; func returns values restricted to plain strings.",
+  "technique": "property-based testing (rapid): differential against a reflect-based reference candidate set",
+ },
+ "C07": {
+  "text": "Generated name assignments (custom, default package/type, empty custom) x requested names (present, absent, present but incompatible, default-name form) x field kinds (*T, interface, any), fields pre-filled with sentinels so 'untouched' is observable; plus duplicate-name registration attempts. Oracle: exactly the named component, else error iff required, sentinel kept when optional.",
+  "design_ref": "DESIGN.md section 4, C07",
+  "note": "Sentinel pre-fill assumes the container may overwrite a field only with a resolved component.",
+  "technique": "property-based testing (rapid): model-based oracle for by-name resolution with sentinel frame check",
+ },
+ "C08": {
+  "text": "Generated qualifier / Primary / naming attributes on providers x consumers with 1-4 fields (qualifier sets, single/slice, optional-empty fields placed before others); the per-field model (qualifier membership, unique Primary, else unique unnamed, ties accepted in the top rank) is compared with the injected identities, so interference between fields of one holder is a violation.",
+  "design_ref": "DESIGN.md section 4, C08",
+  "note": "Tie semantics (several Primary / several unnamed) accepted within the tied set only.",
+  "technique": "property-based testing (rapid): per-field reference model of qualifier/Primary narrowing",
  },
 }
